@@ -35,11 +35,27 @@ impl Out {
     }
 }
 
+static LAST_PANIC: std::sync::Mutex<String> = std::sync::Mutex::new(String::new());
+
+/// Where the most recent panic of this process was raised ("file:line"), as recorded by the hook of `silence_panics`.
+pub fn last_panic_location() -> String {
+    LAST_PANIC.lock().map(|s| s.clone()).unwrap_or_default()
+}
+
+/// Panics of the code under test are outcomes that the drivers record: do not print them, but remember where the
+/// last one was raised.
 pub fn silence_panics() {
-    if std::env::var("QV_SHOW_PANICS").is_ok() {
-        return;
-    }
-    std::panic::set_hook(Box::new(|_| {}));
+    static ONCE: std::sync::Once = std::sync::Once::new();
+    ONCE.call_once(|| {
+        let show = std::env::var("QV_SHOW_PANICS").is_ok();
+        let default = std::panic::take_hook();
+        std::panic::set_hook(Box::new(move |info| {
+            if let (Some(l), Ok(mut s)) = (info.location(), LAST_PANIC.lock()) {
+                *s = format!("{}:{}", l.file(), l.line());
+            }
+            if show { default(info); }
+        }));
+    });
 }
 
 pub fn nm(s: &str) -> Box<Name> {
@@ -66,6 +82,25 @@ pub fn w(s: &str) -> Vec<u8> {
     assert!(s.ends_with('.'), "name {:?} must be absolute", s);
     let labels: Vec<Vec<u8>> = s[..s.len() - 1].split('.').map(|l| l.as_bytes().to_vec()).collect();
     wire_of_labels(&labels)
+}
+
+/// A name that is NOT a subdomain of `apex` although its octets end exactly like the apex's: its first label is
+/// "x" followed by the length octet and the octets of the apex's first label ("x\\003www.example." for
+/// "www.example."). Text form with a decimal escape; None for the root and when the label would exceed 63 octets.
+pub fn tail_trick(apex: &str) -> Option<String> {
+    if apex == "." { return None; }
+    let first = apex.split('.').next().unwrap();
+    if first.contains('\\') || first.len() + 2 > 63 || apex.len() + 3 > 250 { return None; }
+    Some(format!("x\\{:03}{}", first.len(), apex))
+}
+
+/// The same on wire forms.
+pub fn tail_trick_wire(apex: &[u8]) -> Option<Vec<u8>> {
+    let l = apex[0] as usize;
+    if l == 0 || l + 2 > 63 || apex.len() + 2 > 255 { return None; }
+    let mut v = vec![(l + 2) as u8, b'x'];
+    v.extend_from_slice(apex);
+    Some(v)
 }
 
 pub fn name_of_wire(wire: &[u8]) -> Box<Name> {
